@@ -164,14 +164,63 @@ def classify_mol(ctx, mol_or_graph, colors=None, edges=None):
     ctx.maxi("max_atoms", n)
 
 
+class StepBudgetExceeded(BaseException):
+    pass
+
+
+_STEP = {"installed": False, "count": 0, "budget": 0, "repo": None}
+
+
+def _install_step_counter(ctx):
+    """Logical step budget (no wall-clock): counts function entries inside the library under monitoring (sys.monitoring PY_START, a few
+    per cent overhead); a case that needs more than the budget is cut off by an exception raised from the callback."""
+    import sys
+    if _STEP["installed"] or not hasattr(sys, "monitoring"):
+        return
+    mon = sys.monitoring
+    try:
+        mon.use_tool_id(4, "rv-step-budget")
+    except ValueError:
+        return
+    repo = os.path.realpath(ctx.repo) + os.sep
+
+    in_lib = {}
+
+    def on_start(code, offset):
+        ok = in_lib.get(code)
+        if ok is None:
+            ok = in_lib[code] = os.path.realpath(code.co_filename).startswith(repo)
+        if not ok:
+            return mon.DISABLE
+        _STEP["count"] += 1
+        if _STEP["budget"] and _STEP["count"] > _STEP["budget"]:
+            _STEP["budget"] = 0  # fire once
+            raise StepBudgetExceeded()
+        return None
+    mon.register_callback(4, mon.events.PY_START, on_start)
+    mon.set_events(4, mon.events.PY_START)
+    _STEP["installed"] = True
+
+
+STEP_BUDGET = 3_000_000  # library function entries per case (the largest case of the quick workloads needs < 10^5, thorough < 10^6)
+
+
 def case_guard(ctx, case, fn, *args):
     """Run one case. An exception raised INSIDE the library under monitoring on an in-domain input is an observed failure of the
     monitored operation (recorded as a violation with the traceback); an exception from the harness itself propagates (-> inconclusive)."""
     import os
     import traceback
     from ..core import MonitorViolation
+    _install_step_counter(ctx)
+    _STEP["count"], _STEP["budget"] = 0, STEP_BUDGET
     try:
         return fn(ctx, case, *args)
+    except StepBudgetExceeded:
+        ctx.violation("driver:step-budget", {"what": f"the monitored operations of this case did not return within {STEP_BUDGET} library function calls (logical step budget; "
+                                                     "a case of this size needs well under a million)"}, case)
+        ctx.count("step_budget_exceeded")
+        if ctx.obs["step_budget_exceeded"] >= 5:
+            raise RuntimeError("shard stopped after five cases exceeded the logical step budget (recorded as violations)")
     except MonitorViolation as v:
         ctx.violation(v.monitor, v.witness, case, v.prop)
     except Exception as e:  # noqa
@@ -184,6 +233,9 @@ def case_guard(ctx, case, fn, *args):
             raise
         ctx.violation("driver:library-exception", {"what": f"the monitored operation raised {type(e).__name__} on an in-domain input", "message": str(e)[:300],
                                                     "frames": [f"{f.name}@{os.path.basename(f.filename)}:{f.lineno}" for f in tb[-8:]]}, case)
+    finally:
+        ctx.maxi("max_library_calls_in_one_case", _STEP["count"])
+        _STEP["budget"] = 0
     return None
 
 
